@@ -15,6 +15,11 @@ Theorem C21_refuted_records_shared_across_pollers : exists pollers nfd ops,
   wf_C21 pollers nfd ops = true /\ ok_C21 pollers nfd ops (run_C21 pollers nfd ops) = false.
 Proof. exact refuted_shared. Qed.
 
+(** the defect tag of the finding (a selector call that finds the process-global records disagreeing
+    with its own poller's table) is never raised when the process has one poller *)
+Theorem C21_one_poller_never_tagged : forall nfd ops, tags_C21 1 nfd ops = [].
+Proof. exact one_poller_never_tagged. Qed.
+
 (** a descriptor number closed through the runtime and handed out again starts with no record, no
     entry in the OS table, after any history *)
 Theorem C21_reuse_clean : forall nfd ops fd,
@@ -51,6 +56,7 @@ Proof. repeat split; vm_compute; reflexivity. Qed.
 
 Print Assumptions C21_holds_outside.
 Print Assumptions C21_refuted_records_shared_across_pollers.
+Print Assumptions C21_one_poller_never_tagged.
 Print Assumptions C21_reuse_clean.
 Print Assumptions C21_oracle_sound.
 Print Assumptions C21_events_do_not_matter.
